@@ -24,7 +24,7 @@ import par
 
 TECHNIQUE = 'abstract interpretation of decl.c:tagspec/addmember over all member-declaration sequences of bounded length (static type descriptors x bit-field widths), compared with a psABI layout reference validated against the platform compiler'
 
-TY = {'char': (1, 1), 'short': (2, 2), 'int': (4, 4), 'long': (8, 8), 'S12': (12, 4), 'A3': (3, 1), 'ldouble': (16, 16)}
+TY = {'char': (1, 1), 'short': (2, 2), 'int': (4, 4), 'long': (8, 8), 'S12': (12, 4), 'A3': (3, 1), 'ldouble': (16, 16), 'S16': (16, 8)}
 
 
 def layout(members, union=False, pack=False):
@@ -36,7 +36,7 @@ def layout(members, union=False, pack=False):
         if al: A = max(A, al)
         if union:
             if w is None:
-                out.append((0, S * 8)); mx = max(mx, S * 8); align = max(align, A)
+                out.append((0, S * 8) if named else None); mx = max(mx, S * 8); align = max(align, A)
             else:
                 mx = max(mx, w)
                 if named:
@@ -46,7 +46,7 @@ def layout(members, union=False, pack=False):
             continue
         if w is None:
             pos = (pos + A * 8 - 1) // (A * 8) * (A * 8)
-            out.append((pos, S * 8)); pos += S * 8; align = max(align, A)
+            out.append((pos, S * 8) if named else None); pos += S * 8; align = max(align, A)     # anonymous members occupy storage and align the record
         elif w == 0:
             pos = (pos + S * 8 - 1) // (S * 8) * (S * 8)
             out.append(None)
@@ -62,6 +62,8 @@ def layout(members, union=False, pack=False):
 
 
 ALPHA = [('char', None, True), ('short', None, True), ('int', None, True), ('long', None, True), ('S12', None, True), ('A3', None, True), ('ldouble', None, True),
+         ('S16', None, False), ('S12', None, False),      # anonymous struct members
+        
          ('char', 1, True), ('char', 7, True), ('char', 8, True), ('short', 9, True), ('short', 16, True), ('int', 1, True), ('int', 7, True), ('int', 15, True),
          ('int', 31, True), ('int', 32, True), ('long', 33, True), ('long', 63, True), ('long', 64, True),
          ('int', 0, False), ('char', 0, False), ('long', 0, False), ('int', 3, False), ('long', 40, False)]
@@ -70,6 +72,8 @@ ALPHA = [('char', None, True), ('short', None, True), ('int', None, True), ('lon
 def mtype(w, ty):
     if ty == 'S12':
         return w.mkstruct(size=12, align=4)
+    if ty == 'S16':
+        return w.mkstruct(size=16, align=8)
     if ty == 'A3':
         return w.it.call('mkarraytype', [w.t('char'), 0, 3])
     return w.t(ty)
@@ -190,7 +194,7 @@ def rule_layout(chk, prog, tier):
 def rule_packed_alignas(chk, prog, tier):
     r = chk.rule('C06.b2', 'packed structs place every member (scalars, arrays, nested structs) at the next byte with alignment 1 and no tail padding; _Alignas(n) on a member raises its alignment and the struct\'s', floor=700,
                  oracle='gcc 12 __attribute__((packed)) / _Alignas member layout (reference validated by tools/validate_c06_ref.py)')
-    PLAIN = [a for a in ALPHA if a[1] is None]
+    PLAIN = [a for a in ALPHA if a[1] is None and a[2]]
     words = []
     for n in (1, 2, 3):
         words += [tuple((t, w, nm, 0) for t, w, nm in s_) for s_ in itertools.product(PLAIN, repeat=n)]
@@ -653,7 +657,7 @@ def rule_alignspec(chk, prog, tier):
         return st
     # ---- _Alignas in declaration specifiers
     NS = [0, 1, 2, 3, 4, 6, 8, 16, 24, 64, 4096, 2 ** 30, 2 ** 31, 2 ** 31 + 1, 2 ** 32, 2 ** 63]
-    cases = [([('ICE', n)], n) for n in NS] + [([('TYPE', t)], t) for t in ('char', 'int', 'long', 'ldouble')]
+    cases = [([('ICE', n)], n) for n in NS] + [([('TYPE', t)], t) for t in ('char', 'int', 'long', 'ldouble', 'S12', 'A3', 'S16')]
     cases += [([('ICE', a)], [('ICE', b)]) for a in (0, 4, 16) for b in (0, 8, 32)]
     for c in cases:
         specs = [c[0]] if not isinstance(c[1], list) else [c[0], c[1]]
@@ -669,7 +673,7 @@ def rule_alignspec(chk, prog, tier):
                 if k != 'TYPE': return None
                 st['i'] += 1
                 tokobj = i2.gobj('tok'); k2, v2 = toks[st['i']]; tokobj.f[('kind',)] = ev(prog, k2)
-                return w.t(v)
+                return mtype(w, v)
             it.models.update({'typename': typename, 'attr': lambda i2, a, e: 0, 'gnuattr': lambda i2, a, e: 0})
             al = Obj('align', 'local'); al.f[()] = UNINIT
             sc = Obj('sc', 'local'); sc.f[()] = UNINIT
